@@ -5,7 +5,7 @@ CONSTANTS
   AMOUNT = {0, 1, 2}
   RULES = {"Spot", "Futures"}
   MCM = 4
-  EVOLUTIONS <- FewEvolutions
+  EVOLUTIONS <- TwoEvolutions
   MaxEvents = 3
   MaxDeliver = 1
   MaxReinit = 0
